@@ -177,6 +177,10 @@ class Line:
             body = f'{name} ' + ','.join(toks)
         elif self.sep == 'paren_comma_space':
             body = f'{name}(' + ', '.join(toks) + ')'
+        elif self.sep == 'paren_tab':           # a tab is a blank
+            body = f'{name}(' + '\t'.join(toks) + ')'
+        elif self.sep == 'paren_comma_tab':
+            body = f'{name}(' + ',\t'.join(toks) + ')'
         else:
             raise ValueError(self.sep)
         props = list(self.props)
